@@ -731,6 +731,7 @@ pub fn check_dial(case: &DialCase, st: &mut Stats) -> Result<(), String> {
             }
             let table = hook::rpc_table();
             let push_cap = table.iter().find(|t| t.0 == "push_validator_addrs").map(|t| t.1).unwrap();
+            let case_started = std::time::Instant::now();
             let mut model: BTreeMap<usize, Ann> = BTreeMap::new();
             // per member: the listener it was dialled at last (the address the dial loop holds)
             let mut last_dialled: BTreeMap<usize, usize> = BTreeMap::new();
@@ -799,6 +800,12 @@ pub fn check_dial(case: &DialCase, st: &mut Stats) -> Result<(), String> {
                 }
                 // a little longer, for a dial that must not happen
                 tokio::time::sleep(std::time::Duration::from_millis(if expect.is_empty() { 15 } else { 8 })).await;
+                // the dial loops retry on their own every 20 s (CONNECT_RETRY): a case that has been running for half of that
+                // (only possible on a badly overloaded machine) is not judged any further
+                if case_started.elapsed() > std::time::Duration::from_secs(10) {
+                    st.class("case_slower_than_10s(not judged)");
+                    return Ok(());
+                }
                 let new: Vec<(usize, bool)> = seen.lock().unwrap()[checked..].to_vec();
                 checked += new.len();
                 let mut got: Vec<usize> = new.iter().map(|x| x.0).collect();
